@@ -829,3 +829,41 @@ Proof.
 Qed.
 
 Print Assumptions C15_reaches_quiescence_proof.
+(* the potential is below the closed expression C15_bound (TermDefs.v) *)
+Lemma RU_cost : forall D, RU D = cost_u D.
+Proof. intros D. unfold RU, bsU, cost_u. cbn [prodl]. lia. Qed.
+Lemma RC_cost : forall D, RC D = cost_c D.
+Proof. intros D. unfold RC, bsC, cost_c. cbn [prodl]. lia. Qed.
+
+Lemma Phi_bound : forall D (w : sworld), Phi D w <= C15_bound D w.
+Proof.
+  intros D w. unfold Phi, C15_bound, wS.
+  pose proof (rU_lt D (st _ _ _ w)). pose proof (rC_lt D (st _ _ _ w)).
+  rewrite RU_cost, RC_cost in *.
+  replace ((d_cap D + 1) * cost_u D) with (d_cap D * cost_u D + cost_u D) by lia. lia.
+Qed.
+
+Theorem C15_reaches_quiescence_bound_proof : forall D m (w : sworld),
+  d_mutex D = false ->
+  wf_desc D m -> Safe D m (st _ _ _ w) ->
+  J (ctl_of (st _ _ _ w)) ->
+  rd_sched (io _ _ _ w) = [] -> wr_sched (io _ _ _ w) = [] ->
+  script_ok no_hold_res (hs _ _ _ w) = true ->
+  k_state (k (st _ _ _ w)) <> CS_HOLD ->
+  script_ok (res_calls_ok D) (hs _ _ _ w) = true ->
+  u_count (u (st _ _ _ w)) <= d_cap D ->
+  exists n, n <= C15_bound D w /\
+    snd (do_op D sio smu shs s_read s_write s_lock s_unlock s_call (nsvc D n w) OService) = ST_OK.
+Proof.
+  intros D m w Hmx WF HS HJ R1 R2 S1 Hk S2 Hc.
+  assert (Hh : k_hold (k (st _ _ _ w)) = false).
+  { destruct HJ as [[H1 _] _]. cbn in H1.
+    destruct (k_hold (k (st _ _ _ w))); [exfalso; apply Hk, H1; reflexivity | reflexivity]. }
+  destruct (reaches_ok_bound D m WF w Hmx) as (n & Hn & Ho).
+  - split; [exact HS|]. split; [split; assumption|]. split; [exact R1|]. split; [exact R2|]. split; assumption.
+  - exact Hc.
+  - exists n. split; [|exact Ho]. pose proof (Phi_bound D w). lia.
+Qed.
+
+Print Assumptions C15_reaches_quiescence_bound_proof.
+
